@@ -345,11 +345,60 @@ pub fn evaluate(
     expectations: Vec<Expectation>,
     out: &[u8],
     validate_level: bool,
+    // None: matrix rules; Some(cram): real rules of the Markdown (false) / Cram (true) registry
+    flavour: Option<bool>,
 ) -> V {
     let lines = split_lines(out);
     let n_l = lines.len();
     let exps_for_m = expectations.clone();
-    let m = |e: usize, l: usize| exps_for_m[e].matches(lines[l]);
+    // which lines an expectation matches: for real rules the documented meaning itself where the
+    // harness has an independent reading of it (C04 decides the kinds against these readings):
+    // `equal` = the expression plus LF, `no-eol` = exactly the expression, `glob` = the glob
+    // reference of C04 (valid UTF-8 lines, or patterns without `?`), `regex` = the regex crate on
+    // `^(?:expr)$` over the line without its LF. `escaped` and the matrix rules: what the rule says.
+    enum Documented {
+        Whole(Vec<u8>),
+        Glob(Vec<char>),
+        Regex(regex::bytes::Regex),
+        Rule,
+    }
+    let documented: Vec<Documented> = expectations
+        .iter()
+        .map(|e| {
+            let (kind, expr, _, _) = e.unmake();
+            if flavour.is_none() {
+                return Documented::Rule;
+            }
+            match kind.as_str() {
+                "equal" => Documented::Whole([expr.as_slice(), b"\n"].concat()),
+                "no-eol" => Documented::Whole(expr),
+                "glob" => match String::from_utf8(expr) {
+                    Ok(p) => Documented::Glob(p.chars().collect()),
+                    Err(_) => Documented::Rule,
+                },
+                "regex" => match String::from_utf8(expr).ok().and_then(|x| regex::bytes::Regex::new(&format!("^(?:{x})$")).ok()) {
+                    Some(r) => Documented::Regex(r),
+                    None => Documented::Rule,
+                },
+                _ => Documented::Rule,
+            }
+        })
+        .collect();
+    let cram = flavour.unwrap_or(false);
+    let m = |e: usize, l: usize| {
+        let line = lines[l];
+        let content = line.strip_suffix(b"\n").unwrap_or(line);
+        match &documented[e] {
+            Documented::Whole(whole_line) => line == whole_line.as_slice(),
+            Documented::Glob(p) => match std::str::from_utf8(content) {
+                Ok(t) => crate::c04::glob_ref(p, &t.chars().collect::<Vec<_>>(), cram),
+                Err(_) if !p.contains(&'?') && !p.contains(&'\u{fffd}') => crate::c04::glob_ref_bytes(p, content, cram),
+                Err(_) => exps_for_m[e].matches(line),
+            },
+            Documented::Regex(r) => r.is_match(content),
+            Documented::Rule => exps_for_m[e].matches(line),
+        }
+    };
     let diff = match guard(|| DiffTool::new(expectations.clone()).diff(out)) {
         Ok(Ok(d)) => d,
         Ok(Err(e)) => {
@@ -503,6 +552,7 @@ pub fn check_matrix(which: Which, case: &MatrixCase) -> V {
         case.expectations(),
         &case.output(),
         false,
+        None,
     )
 }
 
@@ -835,7 +885,7 @@ pub fn check_real(which: Which, case: &RealCase) -> V {
             (false, true) => 3,
         })
         .collect();
-    evaluate(which, &quants, expectations, &case.output, true).label("real_rules")
+    evaluate(which, &quants, expectations, &case.output, true, Some(case.cram)).label("real_rules")
 }
 
 // ---------------------------------------------------------------------------
